@@ -648,11 +648,24 @@ CORPUS = [
 
 
 # ------------------------------------------------------------------------------------------------ running
+def driver_run(ctx, lines):
+    """ctx.driver.run, tolerant of the binary being re-linked by a concurrent build in the shared tree"""
+    import time
+    for attempt in range(8):
+        try:
+            return ctx.driver.run(lines)
+        except (FileNotFoundError, PermissionError, OSError):
+            time.sleep(3)
+    raise lib.Infra('model driver binary unavailable (concurrent rebuild?)')
+
+
 class Batch:
     def __init__(self, ctx):
         self.ctx = ctx
         self.cases = []
         self.f7 = []
+        self.nfail = {}
+        self.ndiv = 0
 
     def add(self, spec, ops, label):
         ctx = self.ctx
@@ -678,6 +691,10 @@ class Batch:
                 if len(self.f7) < 4:
                     self.f7.append((sig, what, {'spec': spec, 'ops': ops[:step]}))
                 continue
+            ctx.count('oracle-fail:' + sig)
+            self.nfail[sig] = self.nfail.get(sig, 0) + 1
+            if self.nfail[sig] > 3:
+                continue                            # three shrunk witnesses per signature are enough
             small = shrink(spec, ops[:step], sig)
             fs = oracle(spec, small, run_real(spec, small))
             what2 = next((w for s, w, _ in fs if s == sig), what)
@@ -686,7 +703,7 @@ class Batch:
     def flush(self):
         ctx = self.ctx
         cases, self.cases = self.cases, []
-        replies = ctx.driver.run([wire_line(spec, ops) for spec, ops, _ in cases])
+        replies = driver_run(ctx, [wire_line(spec, ops) for spec, ops, _ in cases])
         if replies is None:
             return
         for (spec, ops, real), rep in zip(cases, replies):
@@ -704,7 +721,8 @@ class Batch:
             spec_obs = parse_obs_list(f[2])
             if model != real[1]:
                 k = next((i for i in range(min(len(model), len(real[1]))) if model[i] != real[1][i]), 0)
-                small = shrink_div(ctx, spec, ops[:k]) if k else ops[:k]
+                self.ndiv += 1
+                small = shrink_div(ctx, spec, ops[:k]) if (k and self.ndiv <= 3) else ops[:k]
                 ctx.diverge('step %d (%r): implementation %s / %s, model %s / %s' % (
                     k - 1, ops[k - 1] if k else None, real[1][k][0], diff(real[1][k][1], model[k][1]), model[k][0], ''),
                     {'spec': spec, 'ops': small})
@@ -731,7 +749,7 @@ def shrink(spec, ops, sig):
 def shrink_div(ctx, spec, ops):
     def still(cand):
         real = run_real(spec, cand)
-        rep = ctx.driver.run([wire_line(spec, cand)])
+        rep = driver_run(ctx, [wire_line(spec, cand)])
         if rep is None or real[0] != 'ok':
             return False
         f = rep[0].split(' ')
